@@ -10,7 +10,11 @@ Theorem valid_b_spec : forall s : list tri, valid_surface_b s = true <-> ValidSu
 Proof. exact valid_surface_b_spec. Qed.
 Print Assumptions valid_b_spec.
 
-(* T2: each operation preserves "closed, consistently oriented, V-E+F=2, no repeated node" under its guard *)
+(* T2: each operation preserves (the guard `apex s a b <> apex s b a` says that the two triangles on the edge have
+   different opposite nodes: it excludes the two-triangle pillow and pinched configurations, which the operational
+   definition admits because it has no vertex-manifoldness clause; without it the collapse theorem is false:
+   see collapse_valid_false in MeshOpsProofs.v)
+   each operation preserves "closed, consistently oriented, V-E+F=2, no repeated node" under its guard *)
 Theorem split_preserves : forall (s : list ltri) (a b e : N),
   ValidSurface (tris s) -> In (a, b) (all_hedges (tris s)) -> ~ In e (all_nodes (tris s)) ->
   apex s a b <> apex s b a ->
@@ -27,7 +31,7 @@ Print Assumptions swap_preserves.
 
 Theorem collapse_preserves : forall (s : list ltri) (a b i : N),
   ValidSurface (tris s) -> In (a, b) (all_hedges (tris s)) -> ~ In i (all_nodes (tris s)) ->
-  link_ok s a b = true -> (4 < n_vertices (tris s))%nat ->
+  link_ok s a b = true -> apex s a b <> apex s b a ->
   ValidSurface (tris (collapse s a b i)).
 Proof. exact collapse_valid. Qed.
 Print Assumptions collapse_preserves.
